@@ -62,6 +62,9 @@ func (d *c10DS) write(f func() error) error {
 }
 
 func (d *c10DS) Put(ctx context.Context, k datastore.Key, v []byte) error {
+	// a persistent datastore serialises the value; MapDatastore would keep the
+	// caller's slice, which the harness overwrites after the call (see do)
+	v = append([]byte{}, v...)
 	return d.write(func() error { return d.inner.Put(ctx, k, v) })
 }
 func (d *c10DS) Delete(ctx context.Context, k datastore.Key) error {
@@ -454,6 +457,31 @@ func (s *c10Sys) do(c c10Call) (res int64) {
 				res = 2
 			}
 		}()
+		// the caller's objects: every call gets its own net.IP / *net.IPNet whose
+		// bytes are overwritten as soon as the call has returned (or the process
+		// stopped) — what a caller does that fills one IPNet variable in a loop.
+		// The rules must be what was passed at call time.
+		var ip net.IP
+		var n *net.IPNet
+		if c.r.kind == 1 {
+			ip = append(net.IP{}, c.r.ip...)
+		}
+		if c.r.kind == 2 {
+			n = &net.IPNet{IP: append(net.IP{}, c.r.n.IP...), Mask: append(net.IPMask{}, c.r.n.Mask...)}
+		}
+		defer func() {
+			for i := range ip {
+				ip[i] = 0xAB
+			}
+			if n != nil {
+				for i := range n.IP {
+					n.IP[i] = 0xAB
+				}
+				for i := range n.Mask {
+					n.Mask[i] = 0xFF
+				}
+			}
+		}()
 		var err error
 		switch {
 		case c.r.kind == 0 && c.opk == 0:
@@ -461,13 +489,13 @@ func (s *c10Sys) do(c c10Call) (res int64) {
 		case c.r.kind == 0:
 			err = s.cg.UnblockPeer(c10Peer(c.r.p))
 		case c.r.kind == 1 && c.opk == 0:
-			err = s.cg.BlockAddr(c.r.ip)
+			err = s.cg.BlockAddr(ip)
 		case c.r.kind == 1:
-			err = s.cg.UnblockAddr(c.r.ip)
+			err = s.cg.UnblockAddr(ip)
 		case c.opk == 0:
-			err = s.cg.BlockSubnet(c.r.n)
+			err = s.cg.BlockSubnet(n)
 		default:
-			err = s.cg.UnblockSubnet(c.r.n)
+			err = s.cg.UnblockSubnet(n)
 		}
 		if err != nil {
 			res = 1
